@@ -915,6 +915,20 @@ class Interp:
                 raise Budget('path budget exceeded in %s' % path)
         return results
 
+    def _materialise(self, fr, v, depth=0):
+        """A returned reference whose root is a local of the returning function (it can only designate a place that
+        itself holds a reference / slice value, modelled by its referent) is replaced by what it designates: the
+        frame is about to disappear."""
+        if depth > 4:
+            return v
+        if isinstance(v, Ref) and isinstance(v.root, int) and v.root > fr.body.arg_count and v.root in fr.store:
+            return self._materialise(fr, fr._project(fr.store.get(v.root, TOP), v.proj), depth + 1)
+        if isinstance(v, Opt) and isinstance(v.payload, Ref):
+            return Opt(v.tag, self._materialise(fr, v.payload, depth + 1), v.label)
+        if isinstance(v, Agg) and type(v) is Agg and any(isinstance(x, Ref) for x in v.items):
+            return Agg([self._materialise(fr, x, depth + 1) for x in v.items], v.kind)
+        return v
+
     def _clone_frame(self, fr):
         import copy
         nf = Frame.__new__(Frame)
@@ -957,7 +971,7 @@ class Interp:
                         out[i] = fr.store[('*', i)]
                 for key in getattr(self, '_extra_keys', ()):
                     out[key] = fr.store.get(key, TOP)
-                results.append((pth, fr.store.get(0, TOP), out))
+                results.append((pth, self._materialise(fr, fr.store.get(0, TOP)), out))
                 return
             elif k == 'assert':
                 cv = fr.operand(t['cond'])
